@@ -30,9 +30,9 @@ Definition alloc_buffer (s : st) (size : Z) : st :=
   set_dring (set_bsize (set_balive (set_nb s (S b)) (upd (balive s) b true)) (upd (bsize s) b size))
             (ring_add (dring s) b).
 
-Lemma inv_alloc_buffer s ths t th0 rest h sz :
+Lemma inv_alloc_buffer s ths t th0 rest h sz dst :
   Inv s ths -> nth_error ths t = Some th0 -> cur th0 = PIdle -> building s t h ->
-  Inv (alloc_buffer s sz) (upd_nth ths t (at_pc (PMal1 h (nb s) sz) rest)).
+  Inv (alloc_buffer s sz) (upd_nth ths t (at_pc (PMal1 h (nb s) sz dst) rest)).
 Proof.
   intros HI Ht Hc Hbld.
   destruct (fresh_bring s ths (nb s) HI (le_n _)) as [Hbr Hba].
@@ -124,7 +124,7 @@ Proof.
     + inversion H; subst. now apply i_balive_lt.
     + now apply i_mbuf_lt in H.
   - intros m Ha. destruct (Nat.eq_dec m (nm s)) as [->|Hn]; [rewrite upd_same; eauto|].
-    rewrite upd_other in * by assumption. now apply i_mbuf_some.
+    rewrite upd_other in Ha by assumption. rewrite upd_other by assumption. now apply i_mbuf_some.
   - intros b0 m.
     destruct (Nat.eq_dec b0 b) as [->|Hnb]; [rewrite upd_same|rewrite (upd_other (bring s)) by assumption];
     (destruct (Nat.eq_dec m (nm s)) as [->|Hnm]; [rewrite !upd_same|rewrite !upd_other by assumption]).
